@@ -157,7 +157,7 @@ func mxParams() mxObj {
 					schemas = append(schemas, mxPrim{e.Name + "s", mxObj{"type": "array", "items": e.Schema}})
 				}
 			case "object":
-				schemas = []mxPrim{{"obj", mxObjectSchema(true, "", c.style == "label")}, {"opt", mxObjectSchema(false, "o", c.style == "label")}}
+				schemas = []mxPrim{{"obj", mxObjectSchema(true, "", c.style == "label")}, {"opt", mxObjectSchema(c.in == "path", "o", c.style == "label")}} // (a path segment cannot be empty: there every object has required members)
 			}
 			if c.in == "header" {
 				// a header carries text: arbitrary bytes (format byte is sent as it is, not as base64) are outside the core domain
@@ -194,6 +194,12 @@ func mxParams() mxObj {
 			paths[p] = mxObj{"get": mxObj{"operationId": name, "parameters": params, "responses": mxOK()}}
 		}
 	}
+	// deepObject parameters with members the schema does not declare one by one
+	paths["/query_deepobject_x_map"] = mxObj{"get": mxObj{"operationId": "query_deepobject_x_map", "responses": mxOK(), "parameters": []any{
+		mxObj{"name": "extra", "in": "query", "style": "deepObject", "explode": true, "required": true, "schema": mxObj{"type": "object", "required": []any{"name"}, "properties": mxObj{"name": mxObj{"type": "string"}, "rank": mxObj{"type": "integer", "format": "int32"}}, "additionalProperties": mxObj{"type": "string"}}},
+		mxObj{"name": "nums", "in": "query", "style": "deepObject", "explode": true, "schema": mxObj{"type": "object", "additionalProperties": mxObj{"type": "integer", "format": "int64"}}},
+		mxObj{"name": "flags", "in": "query", "style": "deepObject", "explode": true, "schema": mxObj{"type": "object", "additionalProperties": mxObj{"type": "boolean"}}},
+	}}}
 	// defaults: absent optional parameters arrive as their default
 	var dparams []any
 	for _, d := range []struct {
@@ -336,6 +342,8 @@ func mxBodies() mxObj {
 			}
 			add(short+"_enc_"+en.name, mxObj{"required": true, "content": mxObj{ct: mxObj{"schema": mxObj{"type": "object", "required": []any{"id"}, "properties": props}, "encoding": encoding}}})
 		}
+		// (a form member that is a map - additionalProperties next to or instead of properties - makes the generator
+		// of the pinned tree crash with a nil dereference in ir.(*Type).AddFeature: C11's business, left out here)
 		// a member sent as JSON
 		add(short+"_json_member", mxObj{"required": true, "content": mxObj{ct: mxObj{
 			"schema":   mxObj{"type": "object", "required": []any{"id", "doc"}, "properties": mxObj{"id": mxObj{"type": "string"}, "doc": mxRef("Small"), "more": mxRef("Small")}},
